@@ -381,6 +381,21 @@ package smtp
 //@   prop C13 C19
 //@   requires c != nil && c.server != nil && c.conn != nil && c.server.ErrorLog != nil
 //@   modifies *chan
+//@   ensures @C13 every-recipient-of-the-given-collector-is-answered: status != nil ==> (forall a: string :: has(status.statusMap, a) ==> len(status.statusMap[a]) >= cap(status.statusMap[a]))
+
+// The recover handlers of the two delivery goroutines: a panic in the backend must still leave an
+// answer for every recipient of THIS transfer, otherwise the command loop waits for ever.
+//@ contract (*Conn).handleDataLMTP$1$1()
+//@   prop C13 C20
+//@   requires c != nil && c.server != nil && c.conn != nil && c.server.ErrorLog != nil && status != nil && done != nil
+//@   modifies *chan
+//@   ensures @C13,C20 a-recovered-panic-still-answers-every-recipient: len(done) != old(len(done)) ==> (forall a: string :: has(status.statusMap, a) ==> len(status.statusMap[a]) >= cap(status.statusMap[a]))
+
+//@ contract (*Conn).handleBdat$1$1()
+//@   prop C13 C20
+//@   requires c != nil && c.server != nil && c.conn != nil && c.server.ErrorLog != nil && dataResult != nil && r != nil
+//@   modifies *chan
+//@   ensures @C13,C20 a-recovered-panic-still-answers-every-recipient: len(dataResult) != old(len(dataResult)) && status != nil ==> (forall a: string :: has(status.statusMap, a) ==> len(status.statusMap[a]) >= cap(status.statusMap[a]))
 
 // ---------------------------------------------------------------------------------------
 // BDAT
